@@ -33,8 +33,12 @@ def headers_loop(ctx):
     repo = ctx.repo
     found = []
     for f in repo.cls(RESP).methods.values():
+        accs = set()
+        for x in walk_own(f.node):
+            if isinstance(x, ast.Assign) and any(rname(f, t) == "self.headers" for t in x.targets if isinstance(t, ast.Attribute)) and local_accumulator(f, x.value) is not None:
+                accs.add(x.value.id)
         for c in method_calls(f, "append"):
-            if rname(f, c.func.value) == "self.headers":
+            if rname(f, c.func.value) == "self.headers" or (isinstance(c.func.value, ast.Name) and c.func.value.id in accs):
                 lp = f.module.enclosing(c, ast.For)
                 while lp is not None and not (isinstance(lp.target, ast.Tuple) and len(lp.target.elts) == 2):
                     lp = f.module.enclosing(lp, ast.For)
@@ -47,6 +51,21 @@ def headers_loop(ctx):
         raise AnalysisError("C09: Response.headers is appended to in several methods: %s" % sorted(set(ff.short for ff, _ in found)))
     ctx.fn(f)
     return f, [n for n in f.cfg.nodes_of(lp) if n.kind == "for"][0]
+
+
+def header_appends(ctx):
+    """CFG nodes of the `(name, value)` appends inside the validating header loop (to self.headers or to the local
+    list that is stored into it)"""
+    f, lnode = headers_loop(ctx)
+    accs = set()
+    for x in walk_own(f.node):
+        if isinstance(x, ast.Assign) and any(rname(f, t) == "self.headers" for t in x.targets if isinstance(t, ast.Attribute)) and local_accumulator(f, x.value) is not None:
+            accs.add(x.value.id)
+    out = []
+    for c in method_calls(f, "append"):
+        if (rname(f, c.func.value) == "self.headers" or (isinstance(c.func.value, ast.Name) and c.func.value.id in accs)) and any(a is lnode.ast for a in f.module.ancestors(c)):
+            out += nodes_with(f, c)
+    return out
 
 
 def emitted_head(repo, fields):
@@ -115,7 +134,16 @@ def r1(ctx):
             elif isinstance(st, ast.Expr) and isinstance(st.value, ast.Call) and isinstance(st.value.func, ast.Attribute) and st.value.func.attr in ("append", "extend", "insert") \
                     and isinstance(st.value.func.value, ast.Attribute) and st.value.func.value.attr in fields and tail(st.value.func.value.value) == "self":
                 writes.append((st.value.func.value.attr, st.value.args[-1]))
+            # a local list that is filled with append() and then stored into the field: the appends are the writes
+            expanded_w = []
             for fld, val in writes:
+                acc = local_accumulator(f, val)
+                if acc is not None:
+                    for an, av in acc:
+                        expanded_w.append((fld, av, an))
+                else:
+                    expanded_w.append((fld, val, s))
+            for fld, val, s in expanded_w:
                 leaves = [x for x in ast.walk(val) if isinstance(x, ast.Name) and isinstance(x.ctx, ast.Load)]
                 if not leaves:
                     ctx.ok("C09.R1", site(f, s), "literal")
@@ -147,6 +175,24 @@ def r1(ctx):
                             sh = fmt_shape(x.value)
                             okk = status_reason_fixed(repo)[0] and sh is not None and sh[0] == "{} {}" and all(isinstance(v, ast.Name) for v in sh[1])
                         ctx.check("C09.R1", okk, key(f, "outside-writer|" + t.attr), site(f, x), "Response.%s is written outside the class from non-literal data" % t.attr, "built from literals only")
+
+
+def local_accumulator(f, val):
+    """[(append node, appended expr)] when `val` is a local Name every store to which is an empty list/() display and
+    which grows only through .append(x); else None"""
+    if not isinstance(val, ast.Name) or val.id in f.params:
+        return None
+    st = stores_to_name(f, val.id)
+    if not st or not all(isinstance(x.ast, ast.Assign) and isinstance(x.ast.value, (ast.List, ast.Tuple)) and not x.ast.value.elts for x in st):
+        return None
+    out = []
+    for c in method_calls(f, ("append", "extend", "insert", "appendleft")):
+        if isinstance(c.func.value, ast.Name) and c.func.value.id == val.id:
+            if c.func.attr != "append" or len(c.args) != 1:
+                return None
+            for n in nodes_with(f, c):
+                out.append((n, c.args[0]))
+    return out
 
 
 def _is_response_var(repo, f, e):
@@ -203,7 +249,7 @@ def r2(ctx):
                   "isinstance(%s, str) first" % var, path=p and g.fmt_path(p))
         ctx.check("C09.R2", rt[2] == "fullmatch", key(f, "fullmatch|" + var), site(f, t), "`%s`: header validators must use fullmatch" % norm(t.ast), "fullmatch")
     # name uses the token class
-    apps = [n for c in method_calls(f, "append") if tail(c.func.value) == "headers" for n in nodes_with(f, c)]
+    apps = header_appends(ctx)
     ctx.need(apps, "C09.R2: process_headers never appends")
     p, hits = guard_check(f, apps, token_recog(repo, f, NAME), kills=[k for k in kills_of(f, NAME) if k.kind != "for"] + loop)
     ctx.check("C09.R2", p is None, key(f, "name-token"), site(f), "a header name that is not an RFC 9110 token can be emitted", "names validated as tokens", path=p and g.fmt_path(p))
@@ -221,7 +267,20 @@ def r3(ctx):
                     continue
                 n += 1
                 ctx.check("C09.R3", f is hf and any(a is hloop.ast for a in f.module.ancestors(c)), key(f, "headers-writer"), site(f, c), "Response.headers is extended outside the validating header loop (validation bypassed)", "only the validating loop appends")
-    ctx.floor("C09.R3", "Response.headers append sites", n, 1)
+    # a whole-list store `self.headers = <local accumulator>` counts as the loop's appends; any other store of a
+    # non-empty value does not
+    happs = header_appends(ctx)
+    for f in repo.funcs():
+        for x in walk_own(f.node):
+            if isinstance(x, ast.Assign) and any(isinstance(t, ast.Attribute) and t.attr == "headers" and tail(t.value) in ("self", "resp", "response") for t in x.targets) \
+                    and (f.cls is None or f.cls.qualname == RESP):
+                if isinstance(x.value, (ast.List, ast.Tuple)) and not x.value.elts:
+                    continue
+                acc = local_accumulator(f, x.value)
+                n += 1
+                ctx.check("C09.R3", f is hf and acc is not None and all(an in happs for an, _ in acc), key(f, "headers-writer|store"), site(f, x),
+                          "Response.headers is replaced by a list that was not built by the validating header loop (validation bypassed)", "only the validating loop fills the list")
+    ctx.floor("C09.R3", "Response.headers append sites", n + len(happs), 1)
     f = ctx.fn(repo.func(RESP + ".start_response"))
     g = f.cfg
     ph = [n2 for c in calls_to(repo, f, hf.qualname) for n2 in nodes_with(f, c)] if hf is not f else [hloop]
@@ -255,7 +314,7 @@ def r4(ctx):
     f, loop = headers_loop(ctx)
     g = f.cfg
     NAME, VALUE = [x.id for x in loop.ast.target.elts]
-    apps = [n for c in method_calls(f, "append") if tail(c.func.value) == "headers" for n in nodes_with(f, c)]
+    apps = header_appends(ctx)
 
     def atom_of(e):
         if isinstance(e, ast.Call) and (repo.call_target(f.module, f, e) or "").endswith("is_hoppish"):
@@ -290,29 +349,11 @@ def r5(ctx):
     f = ctx.fn(repo.func(RESP + ".start_response"))
     g = f.cfg
     EXC = f.params[3]
-    # PEP 3333: a second call with exc_info (head not sent yet) REPLACES the stored headers: everything process_headers
-    # accumulates must be reset on that path
-    fp, hloop = headers_loop(ctx)
-    ph = [n for c in calls_to(repo, f, fp.qualname) for n in nodes_with(f, c)] if fp is not f else [hloop]
-    accumulated = set()
-    for x in (walk_own(fp.node) if fp is not f else ast.walk(hloop.ast)):
-        if isinstance(x, ast.Call) and isinstance(x.func, ast.Attribute) and x.func.attr in ("append", "extend") and isinstance(x.func.value, ast.Attribute) and tail(x.func.value.value) == "self":
-            accumulated.add(x.func.value.attr)
-        if isinstance(x, ast.Assign):
-            for t in x.targets:
-                if isinstance(t, ast.Attribute) and tail(t.value) == "self":
-                    accumulated.add(t.attr)
-    ctx.need({"headers", "response_length"} <= accumulated, "C09.R5: process_headers no longer accumulates headers/response_length")
-
-    def second_call(e):
-        return +1 if isinstance(e, ast.Name) and e.id == EXC else None      # false edge: first call
-    for fld in sorted(accumulated):
-        resets = [s for s in g.stmts(ast.Assign) if any(isinstance(t, ast.Attribute) and t.attr == fld and tail(t.value) == "self" for t in s.ast.targets) and
-                  (isinstance(s.ast.value, ast.Constant) or (isinstance(s.ast.value, (ast.List, ast.Dict)) and not getattr(s.ast.value, "elts", getattr(s.ast.value, "keys", []))))]
-        p, hits = guard_check(f, ph, second_call, without_nodes=resets)
-        ctx.check("C09.R5", p is None, key(f, "replace-not-append|" + fld), site(f, ph[0]),
-                  "start_response(.., exc_info) before the head was sent reaches process_headers without resetting Response.%s: the error response keeps the first call's %s "
-                  "(PEP 3333: the new headers replace the stored ones)" % (fld, "header lines" if fld == "headers" else fld), "Response.%s reset on re-entry" % fld, path=p and g.fmt_path(p))
+    # PEP 3333: a second call with exc_info (head not sent yet) REPLACES the stored headers and everything derived
+    # from them -- evaluated on concrete header lists from a used Response (the table of C02.R8 under this rule id)
+    from . import c02
+    from .common import MultiAlias
+    c02.r8(MultiAlias(ctx, {"C02.R8": "C09.R5"}))
     stores = [n for n in g.stmts(ast.Assign) if any(isinstance(t, ast.Attribute) and t.attr == "status" for t in n.ast.targets)]
     ctx.need(stores, "C09.R5: start_response never stores the status")
     for exc in (None, ("T", "V", "TB")):
